@@ -8,6 +8,7 @@ import (
 	"github.com/nyaruka/goflow/flows"
 	"github.com/nyaruka/goflow/flows/events"
 	"verif/checks/c07/lab"
+	"verif/mc"
 	"verif/world"
 )
 
@@ -116,11 +117,13 @@ func translation(prop, lang string, s State) ([]string, bool) {
 
 // Config is one case and its replay artefact.
 type Config struct {
-	Action  string `json:"action"` // send_msg | say_msg | send_broadcast | router
+	Action  string `json:"action"` // send_msg | say_msg | send_broadcast | router | ... | stages (sprints.go)
 	Setting `json:"setting"`
 	BaseAtt bool                           `json:"base_attachments,omitempty"`   // the action has an attachment
 	BaseQR  bool                           `json:"base_quick_replies,omitempty"` // the action has quick replies
 	Tr      map[string]map[string][]string `json:"translations"`                 // property -> language -> translation
+	Steps   []Step                         `json:"steps,omitempty"`              // stages: the resumes (sprints.go)
+	Dest    *Dest                          `json:"destinations,omitempty"`       // send_msg to several destinations with a template (destinations.go)
 }
 
 func (c *Config) base(prop string) []string {
@@ -230,6 +233,9 @@ func anys(xs []string) []any {
 
 // Definition renders the one-node flow with its localization document.
 func (c *Config) Definition() J {
+	if c.Action == "stages" {
+		return c.stagesDefinition()
+	}
 	node := J{"uuid": nodeUUID, "exits": []any{J{"uuid": world.UUID("c18-e0")}}}
 	typ := "messaging"
 	items := map[string]string{} // property -> localized item UUID
@@ -244,6 +250,9 @@ func (c *Config) Definition() J {
 		}
 		if c.Action == "send_broadcast" {
 			a["urns"] = []any{"tel:+12065550123"}
+		}
+		if c.Dest != nil {
+			c.Dest.decorate(a)
 		}
 		node["actions"] = []any{a}
 		items["text"], items["attachments"], items["quick_replies"] = actionUUID, actionUUID, actionUUID
@@ -314,11 +323,14 @@ type Msg struct {
 	Attachments  []string `json:"attachments"`
 	QuickReplies []string `json:"quick_replies"`
 	Locale       string   `json:"locale"`
+	URN          string   `json:"urn,omitempty"`
+	Templated    bool     `json:"templated,omitempty"` // the message carries a templating: its text is the template's
 }
 
 // Observed is what the engine produced.
 type Observed struct {
 	HarnessErr string         `json:"harness_err,omitempty"`
+	Panic      string         `json:"panic,omitempty"`     // the engine panicked while running the session
 	Msgs       []Msg          `json:"msgs,omitempty"`      // msg_created / ivr_created
 	Broadcast  map[string]Msg `json:"broadcast,omitempty"` // broadcast_created translations
 	BcBase     string         `json:"broadcast_base,omitempty"`
@@ -328,6 +340,16 @@ type Observed struct {
 	ResCatLoc  string         `json:"res_category_localized,omitempty"`
 	Errors     []string       `json:"error_events,omitempty"`
 	Emails     []Email        `json:"emails,omitempty"`
+	Sprints    [][]Msg        `json:"sprints,omitempty"` // stages: msg_created per sprint
+	Results    map[string]Res `json:"results,omitempty"` // stages: the result of every stage's router
+}
+
+// Res is a saved result as observed.
+type Res struct {
+	Value    string `json:"value"`
+	Cat      string `json:"category"`
+	CatLoc   string `json:"category_localized"`
+	InSprint int    `json:"in_sprint"`
 }
 
 // Email is an email_sent event as observed.
@@ -337,7 +359,7 @@ type Email struct {
 }
 
 func msgOf(m *flows.MsgOut) Msg {
-	o := Msg{Text: m.Text(), Locale: string(m.Locale()), Attachments: []string{}, QuickReplies: []string{}}
+	o := Msg{Text: m.Text(), Locale: string(m.Locale()), Attachments: []string{}, QuickReplies: []string{}, URN: string(m.URN()), Templated: m.Templating() != nil}
 	for _, a := range m.Attachments() {
 		o.Attachments = append(o.Attachments, string(a))
 	}
@@ -347,6 +369,9 @@ func msgOf(m *flows.MsgOut) Msg {
 
 // Execute runs the flow under the config's setting.
 func (c *Config) Execute(sa flows.SessionAssets) *Observed {
+	if c.Action == "stages" {
+		return c.executeStages(sa)
+	}
 	o := &Observed{}
 	contact := world.DefaultContact()
 	if c.Contact == "" {
@@ -360,6 +385,9 @@ func (c *Config) Execute(sa flows.SessionAssets) *Observed {
 	} else {
 		delete(env, "allowed_languages")
 	}
+	if c.Dest != nil {
+		contact["urns"] = c.Dest.urns()
+	}
 	trig := lab.Trigger{Kind: "manual", Flow: flowUUID, Contact: contact, Env: env}
 	switch c.Action {
 	case "say_msg", "play_audio":
@@ -368,6 +396,10 @@ func (c *Config) Execute(sa flows.SessionAssets) *Observed {
 		trig.Kind, trig.MsgText = "msg", routerInput
 	}
 	x := lab.Exec(sa, trig.JSON(), 0)
+	if x.Panic != "" {
+		o.Panic = x.Panic
+		return o
+	}
 	if x.Err != nil || x.Panic != "" || x.Session == nil {
 		o.HarnessErr = fmt.Sprintf("session did not run: err=%v panic=%s", x.Err, x.Panic)
 		return o
@@ -459,110 +491,215 @@ func localeLang(locale string) string {
 	return locale
 }
 
-// Judge compares the observation with the reference chain; notes are coverage facts.
-func Judge(c *Config, o *Observed) (problems []Problem, notes []string) {
-	langs, labels := c.Setting.Prefs()
+// judger judges the items of one session against the chain of one setting (a staged session has a
+// judger per stage, since the setting changes on the way).
+type judger struct {
+	c             *Config
+	langs, labels []string
+	pfx           string // key prefix (stages: how the session object got to this stage)
+	// viaOld, if set, recognizes a value the chain of the replaced setting would have produced
+	viaOld func(prop string, got []string, first bool) bool
+	// otherLang, if set, names a language the chain does not know (e.g. that of a template used earlier)
+	otherLang func(lang string) string
+	problems  []Problem
+	notes     []string
+}
+
+func newJudger(c *Config, s Setting, pfx string) *judger {
+	j := &judger{c: c, pfx: pfx}
+	j.langs, j.labels = s.Prefs()
 	// facts about the chain's shape
 	switch {
-	case c.Contact == "":
-		notes = append(notes, "chain:contact-language-unset")
-	case !contains(c.Allowed, c.Contact):
-		notes = append(notes, "chain:contact-language-not-allowed")
-	case c.Allowed[0] == c.Contact:
-		notes = append(notes, "chain:contact-language-is-default")
+	case s.Contact == "":
+		j.notes = append(j.notes, "chain:contact-language-unset")
+	case !contains(s.Allowed, s.Contact):
+		j.notes = append(j.notes, "chain:contact-language-not-allowed")
+	case s.Allowed[0] == s.Contact:
+		j.notes = append(j.notes, "chain:contact-language-is-default")
 	}
-	if len(c.Allowed) == 0 {
-		notes = append(notes, "chain:no-allowed-languages")
+	if len(s.Allowed) == 0 {
+		j.notes = append(j.notes, "chain:no-allowed-languages")
 	}
-	decide := func(prop, label string) Decision {
-		d := resolve(langs, labels, c.Base, c.base(prop), c.Tr[prop])
-		notes = append(notes, label+":decided-by:"+d.Rung)
-		for _, n := range d.Notes {
-			if n == "base-language-translation-ignored" {
-				notes = append(notes, n)
-			} else {
-				notes = append(notes, label+":"+n)
+	return j
+}
+
+func (j *judger) decide(prop, label string) Decision {
+	d := resolve(j.langs, j.labels, j.c.Base, j.c.base(prop), j.c.Tr[prop])
+	j.notes = append(j.notes, label+":decided-by:"+d.Rung)
+	for _, n := range d.Notes {
+		if n == "base-language-translation-ignored" {
+			j.notes = append(j.notes, n)
+		} else {
+			j.notes = append(j.notes, label+":"+n)
+		}
+	}
+	return d
+}
+
+func (j *judger) problem(key, what string) {
+	j.problems = append(j.problems, Problem{j.pfx + key, what})
+}
+
+func (j *judger) bad(item, prop string, d Decision, got []string, first bool, what string) {
+	src := j.c.source(prop, got, j.langs, j.labels, first)
+	if j.viaOld != nil && j.viaOld(prop, got, first) {
+		src = "as-under-the-replaced-setting"
+	}
+	j.problem(fmt.Sprintf("%s:%s:want=%s:got=%s", item, prop, d.Rung, src),
+		fmt.Sprintf("%s: the chain %v decides %s by %q (language %s): want %q, got %q", what, j.langs, prop, d.Rung, d.Lang, d.Val, got))
+}
+
+// content judges text, attachments and quick replies of a created message that was built from the
+// action's own (localized) content and returns the decisions; ok is false when one of them is wrong.
+func (j *judger) content(item string, m Msg) (dT, dA, dQ Decision, ok bool) {
+	dT, dA, dQ = j.decide("text", "text"), j.decide("attachments", "attachments"), j.decide("quick_replies", "quick_replies")
+	n := len(j.problems)
+	if m.Text != dT.Val[0] {
+		j.bad(item, "text", dT, []string{m.Text}, true, "message text")
+	}
+	if !equal(m.Attachments, dA.Val) {
+		j.bad(item, "attachments", dA, m.Attachments, false, "message attachments")
+	}
+	if !equal(m.QuickReplies, dQ.Val) {
+		j.bad(item, "quick_replies", dQ, m.QuickReplies, false, "message quick replies")
+	}
+	return dT, dA, dQ, len(j.problems) == n
+}
+
+// localeSource tells which part of the message the locale has to name: the text; text-less:
+// attachments, then quick replies ("" for an empty message).
+func localeSource(dT, dA, dQ Decision) (from, want string) {
+	switch {
+	case dT.Val[0] != "":
+		return "text", dT.Lang
+	case len(dA.Val) > 0:
+		return "attachments", dA.Lang
+	case len(dQ.Val) > 0:
+		return "quick_replies", dQ.Lang
+	}
+	return "", ""
+}
+
+// msg judges one msg_created of a send_msg whose content is the action's: content, then locale.
+func (j *judger) msg(item string, m Msg) {
+	dT, dA, dQ, ok := j.content(item, m)
+	if !ok {
+		return // the locale follows from the content: judged only when the content is right
+	}
+	// the locale names the language used for the text; text-less: attachments, then quick replies
+	from, want := localeSource(dT, dA, dQ)
+	if from == "" {
+		j.notes = append(j.notes, "not-judged:locale-of-an-empty-message")
+		return
+	}
+	j.notes = append(j.notes, "locale-from:"+from)
+	if from == "text" && len(dA.Val) > 0 && dA.Lang != dT.Lang {
+		j.notes = append(j.notes, "locale:text-and-attachments-in-different-languages")
+	}
+	if from == "attachments" && len(dQ.Val) > 0 && dA.Lang != dQ.Lang {
+		j.notes = append(j.notes, "locale:textless-attachments-and-quick-replies-in-different-languages")
+	}
+	if got := localeLang(m.Locale); got != want {
+		var is []string
+		for _, x := range []struct {
+			n string
+			d Decision
+		}{{"text", dT}, {"attachments", dA}, {"quick_replies", dQ}} {
+			if x.d.Lang == got {
+				is = append(is, x.n)
 			}
 		}
-		return d
+		g := "another-language"
+		if got == "" {
+			g = "no-locale"
+		} else if o := j.otherLang; o != nil && o(got) != "" {
+			g = o(got)
+		} else if len(is) > 0 {
+			g = "language-of-" + strings.Join(is, "+")
+		}
+		j.problem(fmt.Sprintf("%s:locale:want=language-of-%s:got=%s", item, from, g),
+			fmt.Sprintf("locale %q: the message's %s was taken from language %s (text %s, attachments %s, quick replies %s)", m.Locale, from, want, dT.Lang, dA.Lang, dQ.Lang))
 	}
+}
+
+// router judges the result a switch router over localized case arguments and category names saved
+// (res nil: none): the match names the argument that was compared, category_localized the name.
+func (j *judger) router(item string, res *Res) {
+	c := j.c
+	dArgs := j.decide("arguments", "arguments")
+	if len(dArgs.Val) != len(c.base("arguments")) {
+		j.notes = append(j.notes, "not-judged:router-arguments-of-different-length")
+		return
+	}
+	dName := j.decide("name", "name")
+	if res == nil {
+		j.problem(item+":result:missing", "the router saved no result")
+		return
+	}
+	word := dArgs.Val[0]
+	if res.Cat != c.base("name")[0] || res.Value != word {
+		got := []string{res.Value}
+		if res.Cat != c.base("name")[0] {
+			got = []string{}
+		}
+		j.bad(item, "arguments", dArgs, got, true, "router comparison (the match names the argument that was compared)")
+		return
+	}
+	eff := res.CatLoc
+	if eff == "" {
+		eff = res.Cat
+	}
+	if eff != dName.Val[0] {
+		j.bad(item, "name", dName, []string{eff}, true, "localized category name")
+	}
+}
+
+// Judge compares the observation with the reference chain; notes are coverage facts.
+func Judge(c *Config, o *Observed) (problems []Problem, notes []string) {
+	if o.Panic != "" {
+		// no text was chosen at all; the signature is the panicking function and the shape of the chain
+		item := c.Action
+		if c.Dest != nil {
+			item += ":destinations"
+		}
+		chain := "with-default-language"
+		if len(c.Allowed) == 0 {
+			chain = "environment-without-default-language"
+		}
+		return []Problem{{Key: item + ":panic:" + mc.PanicSite(o.Panic) + ":" + chain, What: "the engine panicked: " + o.Panic}}, nil
+	}
+	if c.Action == "stages" {
+		return judgeStages(c, o)
+	}
+	j := newJudger(c, c.Setting, "")
+	defer func() { problems, notes = j.problems, j.notes }()
+	langs, labels := j.langs, j.labels
+	decide := j.decide
 	bad := func(prop string, d Decision, got []string, first bool, what string) {
-		problems = append(problems, Problem{
-			Key:  fmt.Sprintf("%s:%s:want=%s:got=%s", c.Action, prop, d.Rung, c.source(prop, got, langs, labels, first)),
-			What: fmt.Sprintf("%s: the chain %v decides %s by %q (language %s): want %q, got %q", what, langs, prop, d.Rung, d.Lang, d.Val, got),
-		})
+		j.bad(c.Action, prop, d, got, first, what)
 	}
+	problem := func(p Problem) { j.problem(p.Key, p.What) }
 
 	switch c.Action {
 	case "send_msg":
-		dT, dA, dQ := decide("text", "text"), decide("attachments", "attachments"), decide("quick_replies", "quick_replies")
+		if c.Dest != nil {
+			judgeDestinations(j, o)
+			return
+		}
 		if len(o.Msgs) != 1 {
-			problems = append(problems, Problem{"send_msg:messages:" + fmt.Sprint(len(o.Msgs)), fmt.Sprintf("want exactly one msg_created, have %d", len(o.Msgs))})
+			problem(Problem{"send_msg:messages:" + fmt.Sprint(len(o.Msgs)), fmt.Sprintf("want exactly one msg_created, have %d", len(o.Msgs))})
 			return
 		}
-		m := o.Msgs[0]
-		if m.Text != dT.Val[0] {
-			bad("text", dT, []string{m.Text}, true, "message text")
-		}
-		if !equal(m.Attachments, dA.Val) {
-			bad("attachments", dA, m.Attachments, false, "message attachments")
-		}
-		if !equal(m.QuickReplies, dQ.Val) {
-			bad("quick_replies", dQ, m.QuickReplies, false, "message quick replies")
-		}
-		if len(problems) > 0 {
-			return // the locale follows from the content: judged only when the content is right
-		}
-		// the locale names the language used for the text; text-less: attachments, then quick replies
-		var from, want string
-		switch {
-		case dT.Val[0] != "":
-			from, want = "text", dT.Lang
-		case len(dA.Val) > 0:
-			from, want = "attachments", dA.Lang
-		case len(dQ.Val) > 0:
-			from, want = "quick_replies", dQ.Lang
-		default:
-			notes = append(notes, "not-judged:locale-of-an-empty-message")
-			return
-		}
-		notes = append(notes, "locale-from:"+from)
-		if from == "text" && len(dA.Val) > 0 && dA.Lang != dT.Lang {
-			notes = append(notes, "locale:text-and-attachments-in-different-languages")
-		}
-		if from == "attachments" && len(dQ.Val) > 0 && dA.Lang != dQ.Lang {
-			notes = append(notes, "locale:textless-attachments-and-quick-replies-in-different-languages")
-		}
-		if got := localeLang(m.Locale); got != want {
-			var is []string
-			for _, x := range []struct {
-				n string
-				d Decision
-			}{{"text", dT}, {"attachments", dA}, {"quick_replies", dQ}} {
-				if x.d.Lang == got {
-					is = append(is, x.n)
-				}
-			}
-			g := "another-language"
-			if got == "" {
-				g = "no-locale"
-			} else if len(is) > 0 {
-				g = "language-of-" + strings.Join(is, "+")
-			}
-			problems = append(problems, Problem{
-				Key:  fmt.Sprintf("send_msg:locale:want=language-of-%s:got=%s", from, g),
-				What: fmt.Sprintf("locale %q: the message's %s was taken from language %s (text %s, attachments %s, quick replies %s)", m.Locale, from, want, dT.Lang, dA.Lang, dQ.Lang),
-			})
-		}
+		j.msg("send_msg", o.Msgs[0])
 
 	case "say_msg":
 		dT := decide("text", "say_text")
 		if strings.TrimSpace(dT.Val[0]) == "" {
-			notes = append(notes, "not-judged:say_msg-without-text")
+			j.notes = append(j.notes, "not-judged:say_msg-without-text")
 			return
 		}
 		if len(o.Msgs) != 1 {
-			problems = append(problems, Problem{"say_msg:messages:" + fmt.Sprint(len(o.Msgs)), fmt.Sprintf("want exactly one ivr_created, have %d", len(o.Msgs))})
+			problem(Problem{"say_msg:messages:" + fmt.Sprint(len(o.Msgs)), fmt.Sprintf("want exactly one ivr_created, have %d", len(o.Msgs))})
 			return
 		}
 		m := o.Msgs[0]
@@ -571,7 +708,7 @@ func Judge(c *Config, o *Observed) (problems []Problem, notes []string) {
 			return
 		}
 		if got := localeLang(m.Locale); got != dT.Lang {
-			problems = append(problems, Problem{
+			problem(Problem{
 				Key:  "say_msg:locale:want=language-of-text:got=" + map[bool]string{true: "no-locale", false: "another-language"}[got == ""],
 				What: fmt.Sprintf("locale %q: the text was taken from language %s", m.Locale, dT.Lang),
 			})
@@ -580,7 +717,7 @@ func Judge(c *Config, o *Observed) (problems []Problem, notes []string) {
 	case "play_audio":
 		dU := decide("audio_url", "audio_url")
 		if len(o.Msgs) != 1 {
-			problems = append(problems, Problem{"play_audio:messages:" + fmt.Sprint(len(o.Msgs)), fmt.Sprintf("want exactly one ivr_created, have %d", len(o.Msgs))})
+			problem(Problem{"play_audio:messages:" + fmt.Sprint(len(o.Msgs)), fmt.Sprintf("want exactly one ivr_created, have %d", len(o.Msgs))})
 			return
 		}
 		m := o.Msgs[0]
@@ -594,7 +731,7 @@ func Judge(c *Config, o *Observed) (problems []Problem, notes []string) {
 		}
 		// a text-less message: the locale names the language of its attachment
 		if got := localeLang(m.Locale); got != dU.Lang {
-			problems = append(problems, Problem{
+			problem(Problem{
 				Key:  "play_audio:locale:want=language-of-attachments:got=" + map[bool]string{true: "no-locale", false: "another-language"}[got == ""],
 				What: fmt.Sprintf("locale %q: the audio was taken from language %s", m.Locale, dU.Lang),
 			})
@@ -603,7 +740,7 @@ func Judge(c *Config, o *Observed) (problems []Problem, notes []string) {
 	case "send_email":
 		dS, dB := decide("subject", "subject"), decide("body", "body")
 		if len(o.Emails) != 1 {
-			problems = append(problems, Problem{"send_email:emails:" + fmt.Sprint(len(o.Emails)), fmt.Sprintf("want exactly one email_sent, have %d", len(o.Emails))})
+			problem(Problem{"send_email:emails:" + fmt.Sprint(len(o.Emails)), fmt.Sprintf("want exactly one email_sent, have %d", len(o.Emails))})
 			return
 		}
 		if o.Emails[0].Subject != dS.Val[0] {
@@ -616,7 +753,7 @@ func Judge(c *Config, o *Observed) (problems []Problem, notes []string) {
 	case "set_run_result":
 		dC := decide("category", "category")
 		if !o.HasResult || o.ResCat != c.base("category")[0] {
-			problems = append(problems, Problem{"set_run_result:result:missing", "the action saved no result with the base category"})
+			problem(Problem{"set_run_result:result:missing", "the action saved no result with the base category"})
 			return
 		}
 		eff := o.ResCatLoc
@@ -628,40 +765,19 @@ func Judge(c *Config, o *Observed) (problems []Problem, notes []string) {
 		}
 
 	case "router":
-		dArgs := decide("arguments", "arguments")
-		if len(dArgs.Val) != len(c.base("arguments")) {
-			notes = append(notes, "not-judged:router-arguments-of-different-length")
-			return
+		var res *Res
+		if o.HasResult {
+			res = &Res{Value: o.ResValue, Cat: o.ResCat, CatLoc: o.ResCatLoc}
 		}
-		dName := decide("name", "name")
-		if !o.HasResult {
-			problems = append(problems, Problem{"router:result:missing", "the router saved no result"})
-			return
-		}
-		word := strings.TrimPrefix(dArgs.Val[0], "")
-		if o.ResCat != c.base("name")[0] || o.ResValue != word {
-			got := []string{o.ResValue}
-			if o.ResCat != c.base("name")[0] {
-				got = []string{}
-			}
-			bad("arguments", dArgs, got, true, "router comparison (the match names the argument that was compared)")
-			return
-		}
-		eff := o.ResCatLoc
-		if eff == "" {
-			eff = o.ResCat
-		}
-		if eff != dName.Val[0] {
-			bad("name", dName, []string{eff}, true, "localized category name")
-		}
+		j.router("router", res)
 
 	case "send_broadcast":
 		if o.Broadcast == nil {
-			problems = append(problems, Problem{"send_broadcast:event:missing", "no broadcast_created event"})
+			problem(Problem{"send_broadcast:event:missing", "no broadcast_created event"})
 			return
 		}
 		if _, ok := o.Broadcast[c.Base]; !ok || o.BcBase != c.Base {
-			problems = append(problems, Problem{"send_broadcast:base-language:missing", fmt.Sprintf("base language %s has no translation in the event (base_language=%s)", c.Base, o.BcBase)})
+			problem(Problem{"send_broadcast:base-language:missing", fmt.Sprintf("base language %s has no translation in the event (base_language=%s)", c.Base, o.BcBase)})
 		}
 		var ls []string
 		for l := range o.Broadcast {
@@ -688,7 +804,7 @@ func Judge(c *Config, o *Observed) (problems []Problem, notes []string) {
 					ok = got[0] == d.Val[0]
 				}
 				if !ok {
-					problems = append(problems, Problem{
+					problem(Problem{
 						Key:  fmt.Sprintf("send_broadcast:%s:want=%s:got=%s", p, d.Rung, c.source(p, got, []string{l, c.Base}, []string{"own", "base"}, first)),
 						What: fmt.Sprintf("broadcast translation for %s: %s want %q (by %s), got %q", l, p, d.Val, d.Rung, got),
 					})
@@ -696,12 +812,13 @@ func Judge(c *Config, o *Observed) (problems []Problem, notes []string) {
 			}
 			if l != c.Base {
 				if own {
-					notes = append(notes, "broadcast:language-with-own-translation")
+					j.notes = append(j.notes, "broadcast:language-with-own-translation")
 				} else {
-					notes = append(notes, "broadcast:language-falls-back-to-base")
+					j.notes = append(j.notes, "broadcast:language-falls-back-to-base")
 				}
 			}
 		}
 	}
+	_, _ = langs, labels
 	return
 }
